@@ -352,7 +352,8 @@ func (t *thread) apply(opts *execOpts) error {
 		t.scriptIdx++
 	}
 
-	if t.hasFlag(scriptflag.Bip16) && lscript.IsP2SH() {
+	// Pay to script hash only exists for outputs created before genesis.
+	if t.hasFlag(scriptflag.Bip16) && !t.afterGenesis && lscript.IsP2SH() {
 		// Only accept input scripts that push data for P2SH.
 		if !t.scripts[0].IsPushOnly() {
 			return errs.NewError(errs.ErrNotPushOnly, "pay to script hash is not push only")
